@@ -19,7 +19,11 @@ inline auto memmove(void* dest, void const* src, etl::size_t count) -> void*
 #if defined(__clang__)
     return __builtin_memmove(dest, src, count);
 #else
-    return etl::detail::memmove<unsigned char>(dest, src, count);
+    return etl::detail::memmove<unsigned char, etl::size_t>(
+        static_cast<unsigned char*>(dest),
+        static_cast<unsigned char const*>(src),
+        count
+    );
 #endif
 }
 
